@@ -87,7 +87,7 @@ BClTotRatio(gs, BL)   == /\ ~IsZero(BTotC(gs))
 BSizeReject(gs, BL) == \/ BClSingle(gs, BL) \/ BClZeroCs(gs, BL) \/ BClEntryRatio(gs, BL)
                        \/ BClTotal(gs, BL) \/ BClTotZero(gs, BL) \/ BClTotRatio(gs, BL)
 BReject(gs, BL)     == BClCount(gs, BL) \/ BSizeReject(gs, BL)
-BMustReject(gs, BL) == BClCountFiles(gs, BL) \/ BSizeReject(gs, BL)
+BMustReject(gs, BL) == BReject(gs, BL)                   \* every record counts (ZipGuard, ENTRY COUNT)
 BMustAccept(gs, BL) == ~BReject(gs, BL)
 BigClass(gs, BL)    == IF BMustReject(gs, BL) THEN "reject"
                        ELSE IF BMustAccept(gs, BL) THEN "accept" ELSE "dontcare"
